@@ -217,7 +217,29 @@ def _gen_app_aborted(rng, tier):
                "sched": {"seed": rng.randrange(1 << 30)}, "horizon": 100.0}
 
 
+def _gen_slow_second(rng, tier):
+    """Pipelined requests of which a later one takes longer than keep_alive_timeout to answer: it was accepted (it is in the server's hands
+    when the previous response ends), so it is answered - the idle timer has no business with a connection that is serving."""
+    for i in range(16 if tier == "quick" else 300):
+        T = 1.0
+        base = 5700000 + i * 10
+        n = rng.choice([2, 3])
+        slow = rng.randrange(1, n)
+        by_tag, datas = {}, []
+        for k in range(n):
+            tag = base + k
+            sc = [["recv_until_end"]] + ([["sleep", rng.choice([2.5, 4.0]) * T]] if k == slow else []) + [["respond", 200, [(b"x-tag", b"%d" % tag)], b"r-%d" % tag]]
+            by_tag[str(tag)] = sc
+            datas.append(b"GET /t%d HTTP/1.1\r\nHost: h\r\n\r\n" % tag)
+        blob = b"".join(datas)
+        yield {"family": "pipelined-slow-later-request", "backends": ["asyncio", "trio"], "config": {"keep_alive_timeout": T}, "conn": {},
+               "apps": {"default": [["recv_until_end"], ["respond", 200, [], b"d"]], "by_tag": by_tag},
+               "client": [["feed_split", blob, [len(blob)]], ["settle"], ["advance", 4.5 * T], ["settle"]],
+               "truth": {"kind": "slow-second", "tags": [base + k for k in range(n)]}, "sched": {"seed": rng.randrange(1 << 30)}, "horizon": 100.0}
+
+
 def gen(rng, tier):
+    yield from _gen_slow_second(rng, tier)
     yield from _gen_app_aborted(rng, tier)
     yield from _gen_unread_upload(rng, tier)
     yield from _gen_early_answer(rng, tier)
@@ -277,7 +299,7 @@ def nontrivial(case, obs):
     t = case["truth"]
     if t.get("kind") == "aborted":
         return any(e[2] == "net" and e[3] == "write_error" for e in obs.trace.events)
-    if t.get("kind") in ("malformed", "early-answer", "unread-upload", "app-aborted"):
+    if t.get("kind") in ("malformed", "early-answer", "unread-upload", "app-aborted", "slow-second"):
         return True
     return len(t["requests"]) > 1 or t["maxreq"] == 1 or any(wants_close(r) or r["version"] == "1.0" for r in t["requests"])
 
@@ -356,6 +378,18 @@ def check(case, obs, tally):
         elif obs.closed_at is None:
             out.append({"clause": "must-close", "sig": "C06.not-closed-after-must-close/early-answer",
                         "detail": "request body incomplete, response complete, connection still open at quiescence"})
+        return out
+    if t.get("kind") == "slow-second":
+        tally.clause("serial")
+        try:
+            resps, _ = h1.parse_responses(bytes(obs.outbytes), [("GET", "1.1")] * len(t["tags"]), obs.closed_at is not None)
+        except h1.Malformed as e:
+            return [{"clause": "serial", "sig": "C06.slow-later-request/malformed", "detail": str(e)}]
+        got = [(r.status, bytes(r.body), r.complete) for r in resps]
+        want = [(200, b"r-%d" % tg, True) for tg in t["tags"]]
+        if got != want:
+            out.append({"clause": "serial", "sig": "C06.slow-later-request/not-answered", "detail": "pipelined requests %r, one of them slower than keep_alive_timeout: "
+                        "responses %r (connection closed at %r)" % (t["tags"], got, obs.closed_at)})
         return out
     if t.get("kind") == "app-aborted":
         tally.clause("app-aborted-closes")
